@@ -146,7 +146,7 @@ PROP = dict(
              env=RACE_ENV, checks=(25, 800), timeout=(1800, 5400), weight=8),
         dict(name="conc", pkg="c18", run="^TestC18_Concurrent$", shards=GROUPS, checks=(400, 5000), timeout=(1800, 5400), weight=5),
         dict(name="seq", pkg="c18", run="^TestC18_Sequential$", shards=FULL_CURVES + SMALL + ["misc"], checks=(1500, 20000), timeout=(1800, 5400), weight=4),
-        dict(name="seq-light", pkg="c18", run="^TestC18_Sequential$", shards=LIGHT_CURVES, checks=(800, 8000), timeout=(1800, 5400), weight=5),
+        dict(name="seq-light", pkg="c18", run="^TestC18_Sequential$", shards=LIGHT_CURVES, checks=(700, 8000), timeout=(1800, 5400), weight=5),
         dict(name="firstuse", pkg="c18", run="^TestC18_FirstUse$", race=True, rapid=False, shards=_first_use_shards, env=RACE_ENV,
              timeout=(1200, 1800), weight=2),
         dict(name="regress", pkg="c18", run="^TestC18_Regress", rapid=False, weight=1),
